@@ -1,0 +1,57 @@
+//go:build verif
+
+package geom
+
+// Contracts for validation (C03), non-topological rules: an XY is valid iff
+// both ordinates are finite; a sequence iff all its XYs are; a LineString iff
+// it is empty or (all finite and at least two distinct points); the Multi*
+// and collection validators accept iff every member's validator accepts.
+
+//@ prop C03,C16,C20,C10
+
+//@ func XY.validate
+//@   ensures result == nil <==> XYFin(w)
+
+//@ func ruleViolation.errAtXY
+//@   ensures result != nil
+
+//@ pred SeqAllFinite(s) = forall k :: 0 <= k && k < NPts(s) ==> finite(s.floats[k*Dim(s.ctype)]) && finite(s.floats[k*Dim(s.ctype)+1])
+//@ pred SeqTwoDistinct(s) = exists k :: 1 <= k && k < NPts(s) && !(s.floats[k*Dim(s.ctype)] == s.floats[0] && s.floats[k*Dim(s.ctype)+1] == s.floats[1])
+
+//@ func Sequence.validate
+//@   split s.ctype 0 1 2 3
+//@   ensures result == nil <==> SeqAllFinite(s)
+//@   loop 0 invariant 0 <= i && i <= n && n == NPts(s) && (forall k :: 0 <= k && k < i ==> finite(s.floats[k*Dim(s.ctype)]) && finite(s.floats[k*Dim(s.ctype)+1]))
+
+//@ func hasAtLeast2DistinctPointsInSeq
+//@   split seq.ctype 0 1 2 3
+//@   ensures result <==> SeqTwoDistinct(seq)
+//@   loop 0 invariant 1 <= i && n == NPts(seq) && n > 0 && same(first.X, seq.floats[0]) && same(first.Y, seq.floats[1]) && (forall k :: 1 <= k && k < i && k < n ==> (seq.floats[k*Dim(seq.ctype)] == seq.floats[0] && seq.floats[k*Dim(seq.ctype)+1] == seq.floats[1]))
+
+//@ func Point.Validate
+//@   ensures result == nil <==> (!p.full || XYFin(p.coords.XY))
+//@   defines result == ufn(ptvalid, error, p)
+
+//@ func LineString.Validate
+//@   ensures result == nil <==> (NPts(s.seq) == 0 || (SeqAllFinite(s.seq) && SeqTwoDistinct(s.seq)))
+//@   defines result == ufn(lsvalid, error, s)
+
+//@ func MultiPoint.Validate
+//@   ensures result == nil <==> (forall k :: 0 <= k && k < len(m.points) ==> ufn(ptvalid, error, m.points[k]) == nil)
+//@   loop 0 invariant -1 <= rangeindex && rangeindex < len(m.points) && (forall k :: 0 <= k && k <= rangeindex ==> ufn(ptvalid, error, m.points[k]) == nil)
+
+//@ func MultiLineString.Validate
+//@   ensures result == nil <==> (forall k :: 0 <= k && k < len(m.lines) ==> ufn(lsvalid, error, m.lines[k]) == nil)
+//@   loop 0 invariant -1 <= rangeindex && rangeindex < len(m.lines) && (forall k :: 0 <= k && k <= rangeindex ==> ufn(lsvalid, error, m.lines[k]) == nil)
+
+//@ func Geometry.Validate
+//@   ensures g.gtype == 1 && g.ptr != nil ==> result == ufn(ptvalid, error, deref(g.ptr, Point))
+//@   ensures g.gtype == 2 && g.ptr != nil ==> result == ufn(lsvalid, error, deref(g.ptr, LineString))
+//@   defines result == ufn(gvalid, error, g)
+
+// a collection is valid iff each direct member is (members validate themselves recursively)
+//@ func GeometryCollection.Validate
+//@   ensures result == nil <==> (forall k :: 0 <= k && k < len(c.geoms) ==> ufn(gvalid, error, c.geoms[k]) == nil)
+//@   loop 0 invariant -1 <= rangeindex && rangeindex < len(c.geoms)
+//@   loop 0 invariant GCInv(c)
+//@   loop 0 invariant forall k :: 0 <= k && k <= rangeindex ==> ufn(gvalid, error, c.geoms[k]) == nil
